@@ -547,11 +547,47 @@ def rule_cmp2(ctx: Ctx) -> RuleResult:
         f = ms[0]
         rr.instances += 1
         ps = [p for p in f.params if p != "self"]
-        rets = [n for n in walk_no_nested(f.node) if isinstance(n, ast.Return) and n.value is not None]
+        rets_all = [n for n in walk_no_nested(f.node) if isinstance(n, ast.Return) and n.value is not None]
+        # the deciding return is the comparison; a constant answer is allowed only under a test for an empty union
+        rets = [r_ for r_ in rets_all if not isinstance(r_.value, ast.Constant)]
+        consts = [r_ for r_ in rets_all if isinstance(r_.value, ast.Constant)]
         if len(rets) != 1 or len(ps) != 2:
             rr.ob(f.relpath, f.qualname, "cmp", f"policy `{pol}`", VIOLATED, "unexpected shape (returns/params)", f.node.lineno)
             continue
         a, b = ps
+        # locals bound to the union / intersection of the two arguments
+        set_locals: Dict[str, ast.AST] = {}
+        for n_ in walk_no_nested(f.node):
+            if isinstance(n_, ast.Assign) and isinstance(n_.targets[0], ast.Name) and isinstance(n_.value, (ast.BinOp, ast.Call)):
+                set_locals[n_.targets[0].id] = n_.value
+
+        class _Inline(ast.NodeTransformer):
+            def visit_Name(self, node):
+                if isinstance(node.ctx, ast.Load) and node.id in set_locals:
+                    return set_locals[node.id]
+                return node
+        import copy as _copy
+        rets = [ast.Return(value=_Inline().visit(_copy.deepcopy(rets[0].value)), lineno=rets[0].lineno)]
+        guard_ok = True
+        for cr in consts:
+            iff = f.module.parents.get(cr)
+            t_ = _Inline().visit(_copy.deepcopy(iff.test)) if isinstance(iff, ast.If) else None
+            def _is_union(e):
+                return (isinstance(e, ast.BinOp) and isinstance(e.op, ast.BitOr) and {norm(e.left), norm(e.right)} == {a, b}) or (
+                    isinstance(e, ast.Call) and isinstance(e.func, ast.Attribute) and e.func.attr == "union"
+                    and {norm(e.func.value), norm(e.args[0]) if e.args else ""} == {a, b})
+            emptiness = t_ is not None and (
+                (isinstance(t_, ast.UnaryOp) and isinstance(t_.op, ast.Not) and (_is_union(t_.operand) or _set_op(t_.operand, ast.BitOr, a, b)))
+                or (isinstance(t_, ast.Compare) and len(t_.ops) == 1 and isinstance(t_.ops[0], ast.Eq) and (
+                    (_set_op(t_.left, ast.BitOr, a, b) and norm(t_.comparators[0]) == "0") or
+                    (_is_union(t_.left) and norm(t_.comparators[0]) in ("set()", "frozenset()")))))
+            if not emptiness:
+                guard_ok = False
+        if consts and not guard_ok:
+            rr.ob(f.relpath, f.qualname, norm(consts[0]), f"policy `{pol}`", VIOLATED,
+                  "a constant answer is returned under a condition other than `the union of both key sets is empty`", consts[0].lineno)
+            continue
+        has_empty_guard = bool(consts) and guard_ok
         nc = _norm_cmp(rets[0].value)
         text = norm(rets[0].value)
         if pol == "exact":
@@ -578,16 +614,26 @@ def rule_cmp2(ctx: Ctx) -> RuleResult:
         else:
             meas_ok = isinstance(l, ast.BinOp) and isinstance(l.op, ast.Div) and _set_op(l.left, ast.BitAnd, a, b) \
                 and _set_op(l.right, ast.BitOr, a, b)
-            # cross-multiplied form (no division by an empty union): |a ∩ b| >= p * |a ∪ b|
+            # cross-multiplied form |a ∩ b| >= p * |a ∪ b|: same relation over the reals, but the float product is rounded
+            cross = False
             if not meas_ok and _set_op(l, ast.BitAnd, a, b) and isinstance(r, ast.BinOp) and isinstance(r.op, ast.Mult):
                 fac = [r.left, r.right]
                 thr = [x for x in fac if is_thr(x)]
                 uni = [x for x in fac if _set_op(x, ast.BitOr, a, b)]
                 if len(thr) == 1 and len(uni) == 1:
                     meas_ok = True
+                    cross = True
                     r = thr[0]
                     thr_ok = True
             want = "|a ∩ b| / |a ∪ b| >= p"
+            if cross:
+                rr.instances += 1
+                rr.ob(f.relpath, f.qualname, text, "a pair whose share of common keys is exactly the configured percentage is merged "
+                      "(the threshold is inclusive)", VIOLATED,
+                      "the threshold is multiplied into the union size: the float product is rounded up for some exact cases "
+                      "(0.28 * 25 == 7.000000000000001 > 7, 0.07 * 100 > 7: 27 whole percentages with unions up to 200), so a pair "
+                      "sitting exactly on the threshold is rejected; the quotient len(a & b) / len(a | b) is correctly rounded and "
+                      "compares equal to the literal", rets[0].lineno)
         ok = thr_ok and meas_ok and op == ">="
         how = f"normal form `{norm(l)} {op} {norm(r)}`"
         divs = [x for x in ast.walk(rets[0].value) if isinstance(x, ast.BinOp) and isinstance(x.op, (ast.Div, ast.FloorDiv, ast.Mod))
@@ -595,9 +641,10 @@ def rule_cmp2(ctx: Ctx) -> RuleResult:
         if divs:
             rr.instances += 1
             rr.ob(f.relpath, f.qualname, norm(divs[0]), f"`{pol}` is defined for every pair of key sets, two empty ones included "
-                  f"(two samples that are empty objects)", VIOLATED,
+                  f"(two samples that are empty objects)", DISCHARGED if has_empty_guard else VIOLATED,
+                  "the empty union is answered before the division" if has_empty_guard else
                   f"division by `{norm(divs[0].right)}`: two models without fields raise ZeroDivisionError and abort the merge "
-                  f"(cross-multiply instead)", rets[0].lineno)
+                  f"(answer the empty union first)", rets[0].lineno)
         if not meas_ok:
             how += " - the measured quantity is not the documented one"
         elif op != ">=":
